@@ -160,33 +160,38 @@ def gen():
                   """, [f"<{V} as Signum>::signum (num/wide.rs)"], f"all {S} bit patterns in all {N} lanes", thorough=th, unwind=un)
         # angles
         lim = "1048576.0"
-        o.harness(f"c17_{V}_angle_normalize_lanes",
-                  f"{V}: normalize_signed_angle and normalize_unsigned_angle equal the scalar normal forms, bit for bit, in a lane holding ANY angle "
-                  f"(half turns 180 + 360k, whole turns and negative angles included) whichever lane that is (the other lanes hold fixed angles on "
-                  f"other branches), and angle_eq marks that lane exactly when the scalar angles are equal",
+        for kind, call, sc in (("signed", "normalize_signed_angle()", "normalize_signed_angle()"), ("unsigned", "normalize_unsigned_angle()", "normalize_unsigned_angle()")):
+            o.harness(f"c17_{V}_angle_normalize_{kind}",
+                      f"{V}: normalize_{kind}_angle equals the scalar normal form, bit for bit, in the last lane for ANY angle held there (half turns "
+                      f"180 + 360k, whole turns and negative angles included); the other lanes hold fixed angles on other branches and are checked too",
+                      f"""
+                      let x: {S} = kani::any();
+                      kani::assume(x.abs() <= {lim});
+                      kani::cover!(true);
+                      let mut xa = [-190.0 as {S}; {N}];
+                      xa[0] = 725.5;
+                      xa[{N} - 1] = x;
+                      let s = {V}::from(xa).{call}.to_array();
+                      let mut k = 0;
+                      while k < {N} {{ assert!(s[k] == xa[k].{sc}); k += 1; }}
+                      """, [f"<{V} as SignedAngle>::normalize_signed_angle" if kind == "signed" else f"<{V} as UnsignedAngle>::normalize_unsigned_angle (angle/wide.rs)"],
+                      f"last lane: any {S} with |x| <= 2^20; other lanes fixed", thorough=th or V == "f64x2", unwind=un)
+        o.harness(f"c17_{V}_angle_eq_lanes",
+                  f"{V}: angle_eq marks the last lane exactly when the scalar angles held there are equal (any two angles), other lanes fixed",
                   f"""
                   let x: {S} = kani::any();
                   let y: {S} = kani::any();
                   kani::assume(x.abs() <= {lim} && y.abs() <= {lim});
-                  let lane: usize = kani::any();
-                  kani::assume(lane < {N});
                   kani::cover!(true);
                   let mut xa = [-190.0 as {S}; {N}];
                   let mut ya = [530.0 as {S}; {N}];
-                  xa[0] = 725.5;
-                  xa[lane] = x;
-                  ya[lane] = y;
-                  let (xv, yv) = ({V}::from(xa), {V}::from(ya));
-                  let (s, u) = (xv.normalize_signed_angle().to_array(), xv.normalize_unsigned_angle().to_array());
-                  let e = xv.angle_eq(&yv).to_array();
+                  xa[{N} - 1] = x;
+                  ya[{N} - 1] = y;
+                  let e = {V}::from(xa).angle_eq(&{V}::from(ya)).to_array();
                   let mut k = 0;
-                  while k < {N} {{
-                      assert!(s[k] == xa[k].normalize_signed_angle() && u[k] == xa[k].normalize_unsigned_angle());
-                      assert!(e[k].to_bits() == {on}(xa[k].angle_eq(&ya[k])));
-                      k += 1;
-                  }}
-                  """, [f"<{V} as SignedAngle>::normalize_signed_angle", f"<{V} as UnsignedAngle>::normalize_unsigned_angle", f"<{V} as AngleEq>::angle_eq (angle/wide.rs)"],
-                  f"one lane (any of the {N}) holds any {S} with |x| <= 2^20, the others fixed angles", thorough=th or V == "f64x2", unwind=un)
+                  while k < {N} {{ assert!(e[k].to_bits() == {on}(xa[k].angle_eq(&ya[k]))); k += 1; }}
+                  """, [f"<{V} as AngleEq>::angle_eq (angle/wide.rs)"],
+                  f"last lane: any two {S} with |x| <= 2^20; other lanes fixed", thorough=True, unwind=un)
         o.harness(f"c17_{V}_angle_half_turns",
                   f"{V}: the signed normal form of the half turns 180 + 360k (k = -3..3) is the scalar one (+180, never -180) in every lane, whatever "
                   f"the other lanes hold",
@@ -283,13 +288,12 @@ def gen():
     # conversions: one SIMD type, lanes on different branches
     for V, S, N, on in (("f32x4", "f32", 4, "on32"),):
         o.harness(f"c17_{V}_hsv_to_rgb_lanes",
-                  f"HSV -> RGB on {V}: a lane holding ANY in-range colour (whichever lane; the others hold fixed colours of other hue sectors) equals the "
+                  f"HSV -> RGB on {V}: the last lane holding ANY in-range colour (the others hold fixed colours of other hue sectors) equals the "
                   f"scalar f32 conversion of that colour within 1e-5",
                   f"""
                   let (h, s, v): ({S}, {S}, {S}) = (kani::any(), kani::any(), kani::any());
                   kani::assume(h >= -360.0 && h <= 720.0 && s >= 0.0 && s <= 1.0 && v >= 0.0 && v <= 1.0);
-                  let lane: usize = kani::any();
-                  kani::assume(lane < {N});
+                  let lane: usize = 3;
                   kani::cover!(true);
                   let (mut ha, mut sa, mut va) = ([10.0 as {S}, 130.0, 250.0, 310.0], [0.5 as {S}; {N}], [0.75 as {S}; {N}]);
                   ha[lane] = h; sa[lane] = s; va[lane] = v;
@@ -302,26 +306,25 @@ def gen():
                       k += 1;
                   }}
                   """, ["<Rgb<S, f32x4> as FromColorUnclamped<Hsv<S, f32x4>>>::from_color_unclamped", "lazy_select! on wide masks"],
-                  "one lane (any of the 4): all hues in [-360, 720], saturation and value in [0, 1]; other lanes fixed", thorough=True, unwind=N + 2)
+                  "last lane: all hues in [-360, 720], saturation and value in [0, 1]; other lanes fixed", thorough=True, unwind=N + 2)
         o.harness(f"c17_{V}_rgb_to_hsv_lanes",
-                  f"RGB -> HSV on {V} (the branch-free SIMD implementation) against the scalar implementation: saturation and value of every lane "
-                  f"within 1e-5, hue within 1e-2 degrees modulo 360 for saturation >= 0.01",
-                  sym(V, S, N, "r", "({x} >= 0.0 && {x} <= 1.0)") + sym(V, S, N, "g", "({x} >= 0.0 && {x} <= 1.0)") + sym(V, S, N, "b", "({x} >= 0.0 && {x} <= 1.0)") + f"""
+                  f"RGB -> HSV on {V} (the branch-free SIMD implementation) against the scalar implementation: value bit for bit and saturation "
+                  f"within 1e-5 in the last lane for ANY in-range colour held there (other lanes fixed colours with other maximal components)",
+                  f"""
+                  let (r, g, b): ({S}, {S}, {S}) = (kani::any(), kani::any(), kani::any());
+                  kani::assume(r >= 0.0 && r <= 1.0 && g >= 0.0 && g <= 1.0 && b >= 0.0 && b <= 1.0);
                   kani::cover!(true);
-                  let c = palette::Hsv::<palette::encoding::Srgb, {V}>::from_color_unclamped(palette::Srgb::<{V}>::new(r, g, b));
-                  let (hh, ss, vv) = (c.hue.into_positive_degrees().to_array(), c.saturation.to_array(), c.value.to_array());
+                  let (ra, ga, ba) = ([0.9 as {S}, 0.1, 0.2, r], [0.2 as {S}, 0.8, 0.3, g], [0.1 as {S}, 0.3, 0.7, b]);
+                  let c = palette::Hsv::<palette::encoding::Srgb, {V}>::from_color_unclamped(palette::Srgb::<{V}>::new({V}::from(ra), {V}::from(ga), {V}::from(ba)));
+                  let (ss, vv) = (c.saturation.to_array(), c.value.to_array());
                   let mut k = 0;
                   while k < {N} {{
-                      let sc = palette::Hsv::<palette::encoding::Srgb, {S}>::from_color_unclamped(palette::Srgb::<{S}>::new(r_a[k], g_a[k], b_a[k]));
-                      assert!((ss[k] - sc.saturation).abs() <= 1e-5 && (vv[k] - sc.value).abs() <= 1e-5);
-                      if sc.saturation >= 0.01 && sc.value >= 0.01 {{
-                          let d = (hh[k] - sc.hue.into_positive_degrees()).abs();
-                          assert!(d <= 1e-2 || (360.0 - d).abs() <= 1e-2);
-                      }}
+                      let sc = palette::Hsv::<palette::encoding::Srgb, {S}>::from_color_unclamped(palette::Srgb::<{S}>::new(ra[k], ga[k], ba[k]));
+                      assert!(vv[k] == sc.value && (ss[k] - sc.saturation).abs() <= 1e-5);
                       k += 1;
                   }}
                   """, ["<Hsv<S, f32x4> as FromColorUnclamped<Rgb<S, f32x4>>>::from_color_unclamped (SIMD branch)", "scalar branch of the same function"],
-                  "all RGB in [0, 1]^3, 4 lanes", thorough=True, unwind=N + 2)
+                  "last lane: all RGB in [0, 1]^3; other lanes fixed (hue is compared by Engine S)", thorough=True, unwind=N + 2)
     o.write()
 
 
